@@ -118,7 +118,7 @@ def generate(run_seed, prop, tier="quick"):
                                                          explicit_h=rng.random() < 0.3,
                                                          components=rng.choice([1, 1, 1, 2, 3])) for _ in range(rng.choice([1, 2]))]
         if rng.random() < 0.35:
-            scenario["resolver_strings"] = [rng.choice(ION_STRINGS + [w[0] for w in WRITTEN_H_STRINGS])]
+            scenario["resolver_strings"] = [rng.choice(ION_STRINGS + [w[0] for w in WRITTEN_H_STRINGS] + [f[0] for f in FORMULA_STRINGS])]
         if rng.random() < 0.02:
             scenario["resolver_strings"] = scenario.get("resolver_strings", []) + [rng.choice(BIG_STRINGS)]
     return scenario
@@ -829,6 +829,29 @@ WRITTEN_H_STRINGS = [
 ]
 
 
+# molecules whose formula is known by hand (reference by construction): every atom of the result counted
+FORMULA_STRINGS = [
+    ("{[#A][#B]}.{#A=[$]Cc1c[nH]cc1,#B=[$]CC}", {"C": 7, "H": 11, "N": 1}),                       # 3-propylpyrrole
+    ("{[#A]|3}.{#A=[$]CC[$]Cc1c[nH]cn1}", {"C": 18, "H": 26, "N": 6}),                            # vinyl-type trimer, imidazole pendants
+    ("{[#A][#B]}.{#A=[$]C[N+](C)(C)C,#B=[$]CC(=O)[O-]}", {"C": 6, "H": 13, "N": 1, "O": 2}),       # betaine
+    ("{[#A][#B]}.{#A=[$]c1c[nH]c2ccccc12,#B=[$]C}", {"C": 9, "H": 9, "N": 1}),                     # 3-methylindole
+    ("{[#A][#B]}.{#A=[$]c1ccncc1,#B=[$]O}", {"C": 5, "H": 5, "N": 1, "O": 1}),                     # 4-hydroxypyridine
+    ("{[#A][#B][#A]}.{#A=[$]C,#B=[$]S(=O)(=O)[$]}", {"C": 2, "H": 6, "O": 2, "S": 1}),             # dimethyl sulfone
+    ("{[#A][#B]}.{#A=[$]C,#B=[$]OP(=O)(O)O}", {"C": 1, "H": 5, "O": 4, "P": 1}),                   # methyl phosphate
+    ("{[#A][#B]}.{#A=CC[!],#B=[!]CO}", {"C": 2, "H": 6, "O": 1}),                                  # ethanol through a shared atom
+    ("{[#A]1[#A][#A]1}.{#A=[$]CC[$]}", {"C": 6, "H": 12}),                                         # cyclohexane from three units
+    ("{[#A][#B]}.{#A=[$]cccc[$],#B=[$]cc[$]}", {"C": 6, "H": 8}),                                  # one bond only: hexatriene
+    ("{[#A]=[#B]}.{#A=[$]=CC,#B=[$]=C}", {"C": 3, "H": 6}),                                        # propene through a double bond
+    ("{[#A][#B]}.{#A=[$]c1ccccc1,#B=[$]c1cc[nH]c1}", {"C": 10, "H": 9, "N": 1}),                   # 3-phenylpyrrole
+    ("{[#A][#B][#A]}.{#A=[$]C(=O)O,#B=[$]c1ccc([$])cc1}", {"C": 8, "H": 6, "O": 4}),               # terephthalic acid
+    ("{[#A][#B]}.{#A=[>]CC#N,#B=[<]N(C)C}", {"C": 4, "H": 8, "N": 2}),
+    ("{[#A][#B]}.{#A=[$]C[S-],#B=[$]C[NH3+]}", {"C": 2, "H": 7, "N": 1, "S": 1}),
+    ("{[#A]|4}.{#A=[>]C=C[<]}", {"C": 8, "H": 10}),                                                # octatetraene
+    ("{[#A][#B]}.{#A=[$]C1CC1,#B=[$]C1=CC=C1}", {"C": 7, "H": 8}),
+    ("{[#A][#B]}.{#A=[$]c1ccc[nH]1,#B=[$]c1ccc[nH]1}", {"C": 8, "H": 8, "N": 2}),                  # 2,2'-bipyrrole
+]
+
+
 def resolve_strings(strings):
     """Resolver-side C09 monitor on curated strings (free ions, salts, surplus descriptors)."""
     from cgsmiles.resolve import MoleculeResolver
@@ -843,6 +866,14 @@ def resolve_strings(strings):
             continue
         for detail in check_valence(fine, explicit_h=True, stats=stats):
             out.append({"oracle": "C09.valence", "detail": "resolver output of %s: %s" % (text, detail), "event": None})
+        for known, formula in FORMULA_STRINGS:
+            if known == text:
+                from collections import Counter as _Counter
+                got = dict(_Counter(fine.nodes[n].get("element") for n in fine.nodes))
+                stats["formula_checked"] = stats.get("formula_checked", 0) + 1
+                if got != formula:
+                    out.append({"oracle": "C09.valence", "event": None,
+                                "detail": "resolver output of %s has the formula %r, the molecule written is %r" % (text, got, formula)})
         for known, expect in WRITTEN_H_STRINGS:
             if known == text:
                 for weight, count in expect.items():
